@@ -73,6 +73,8 @@ type Enum struct {
 	Base    string // "" renders without ": base" (uint32)
 	Flags   bool
 	Options []EnumOption
+	// Imported: the enum is defined in a second file (its own Go package) which the schema imports.
+	Imported bool
 }
 
 // BaseType returns the effective base type.
@@ -218,7 +220,35 @@ func (f File) EnumByName(name string) (Enum, bool) {
 }
 
 // Render prints schema text the real compiler accepts: one item per line.
+//
+// When some enums are Imported the text has two parts: the importing file, then the line DepMarker, then the
+// imported file (with its go_package); pkgbuild writes them as schema.bop and drvdep/dep.bop.
 func Render(f File) string {
+	var b strings.Builder
+	main, dep := f, File{}
+	main.Enums = nil
+	for _, e := range f.Enums {
+		if e.Imported {
+			dep.Enums = append(dep.Enums, e)
+		} else {
+			main.Enums = append(main.Enums, e)
+		}
+	}
+	if len(dep.Enums) > 0 {
+		b.WriteString("import \"drvdep/dep.bop\"\n\n")
+		b.WriteString(renderOne(main))
+		b.WriteString(DepMarker + "\n")
+		b.WriteString("const string go_package = \"drvpkg/drvdep\";\n\n")
+		b.WriteString(renderOne(dep))
+		return b.String()
+	}
+	return renderOne(f)
+}
+
+// DepMarker separates the importing file from the imported one in a rendered two-file schema.
+const DepMarker = "// ---- imported file: drvdep/dep.bop ----"
+
+func renderOne(f File) string {
 	var b strings.Builder
 	for _, e := range f.Enums {
 		if e.Flags {
